@@ -352,11 +352,14 @@ def toml_calls(ck):
             return {"DUMP": 1}
 
     files = []
+    opens = []
 
     def m_open(interp, name, mode="r", *a, **k):
         f = F(mode)
         files.append((name, f))
         calls.append(("open", name, mode))
+        enc = k.get("encoding", a[1] if len(a) > 1 else None)  # open(file, mode, buffering, encoding, ...)
+        opens.append({"name": name, "mode": mode, "encoding": None if enc is None else str(enc).lower().replace("_", "-")})
         return f
 
     def m_dump(interp, doc, f, *a, **k):
@@ -396,6 +399,86 @@ def toml_calls(ck):
         verdict = False if nat.get("violated") else None
     ck.direct("config:config_from_toml/post", verdict, "post", "symbolic execution (call log)", note=str(calls)[:300], clause="the configuration is built from the whole loaded document: every key of the file reaches the validators",
               replay_out=None if ok else native_first(ck))
+    # a TOML file is UTF-8 by definition (and create_toml writes UTF-8): the reader decodes it as UTF-8 whatever the locale of the reading
+    # process -- the file is opened in binary mode (the library decodes), or in text mode with an explicit UTF-8 encoding
+    rd = [o for o in opens if o["name"] == "f.toml" and "w" not in o["mode"] and "a" not in o["mode"]]
+    if rd:
+        utf8 = all(("b" in o["mode"]) or o["encoding"] in ("utf-8", "utf8", "utf-8-sig") for o in rd)
+        ck.direct("config:config_from_toml/pre.utf8", utf8, "pre", "symbolic execution (effective options of open)", note=str(rd)[:200],
+                  clause="the configuration file is decoded as UTF-8 independently of the locale of the reading process (binary mode, or text mode with encoding='utf-8')",
+                  witness=None if utf8 else {"open": rd}, replay_out=None if utf8 else native_locale(ck))
+
+
+def cli_months(ck):
+    """the command line front ends (`create-config`, `run`): the --pressuremapcloud option accepts a month as number, full name or abbreviation
+    (what the model's own validator accepts) and hands that month to the cloud model.  Decided by exhaustive evaluation of the REAL click
+    option types of the real commands over the finite domain 12 months x 4 spellings, followed by the real parse_cloud_options."""
+    import calendar
+
+    import click
+
+    from nuspacesim.apps.utils import parse_cloud_options
+
+    for modname, cmdname in (("nuspacesim.apps.create_config", "create_config"), ("nuspacesim.apps.run", "run")):
+        qn = "%s:%s" % (modname.split(".", 1)[1], cmdname)
+        try:
+            import importlib
+
+            mod = importlib.import_module(modname)
+            ck.add_file(modname.replace(".", "/") + ".py")
+            cmd = getattr(mod, cmdname)
+            par = [p_ for p_ in cmd.params if p_.name == "pressuremapcloud"][0]
+        except Exception as ex:
+            o = ck.ob("%s/option.month" % qn, "exec")
+            o.note = "the command or its --pressuremapcloud option is not found on this tree: %r" % ex
+            ck._undecided(o, None)
+            continue
+        bad, n = [], 0
+        for m in range(1, 13):
+            for text in (str(m), "%02d" % m, calendar.month_name[m], calendar.month_abbr[m]):
+                n += 1
+                try:
+                    with click.Context(cmd):
+                        dt = par.type.convert(text, par, None)
+                    cm = parse_cloud_options(False, None, dt)
+                    if getattr(cm, "month", None) != m:
+                        bad.append({"given": text, "month of the cloud model": getattr(cm, "month", None), "expected": m})
+                except Exception as ex:
+                    bad.append({"given": text, "raised": "%s: %s" % (type(ex).__name__, str(ex)[:100])})
+        ck.direct("%s/option.month" % qn, not bad, "post", "exhaustive evaluation (12 months x 4 spellings through the real option type and parse_cloud_options)", note=str(bad[:3])[:240],
+                  clause="--pressuremapcloud accepts every month as number, zero-padded number, full English name and abbreviation, and the cloud model gets that month",
+                  witness=None if not bad else {"failing": bad[:6]}, replay_out=None if not bad else {"violated": True, "input": {"command": cmdname, "--pressuremapcloud": bad[0]["given"]}, "observed": bad[0]})
+
+
+def native_locale(ck):
+    """a child interpreter whose preferred encoding is not UTF-8 (LC_ALL=C, UTF-8 mode off) reads a configuration whose title is not ASCII"""
+    import subprocess
+    import sys
+
+    from nuspacesim.config import NssConfig, create_toml
+
+    tmp = tempfile.mkdtemp(prefix="c15l_", dir=os.environ.get("XDG_RUNTIME_DIR") or None)
+    path = os.path.join(tmp, "c.toml")
+    try:
+        c = NssConfig()
+        c.title = "Sch\u00f6nes \u30c6\u30b9\u30c8 \u00e9"
+        create_toml(path, c)
+        code = "import sys, locale; from nuspacesim.config import config_from_toml; c = config_from_toml(sys.argv[1]); sys.stdout.buffer.write((locale.getpreferredencoding(False) + '|' + c.title).encode('utf-8'))"
+        env = dict(os.environ, LC_ALL="C", LANG="C", PYTHONUTF8="0", PYTHONCOERCECLOCALE="0", PYTHONPATH=os.pathsep.join(p for p in sys.path if p))
+        r = subprocess.run([sys.executable, "-c", code, path], capture_output=True, env=env, timeout=120)
+        out = r.stdout.decode("utf-8", "replace")
+        enc, _, title = out.partition("|")
+        ok = r.returncode == 0 and title == c.title
+        if r.returncode == 0 and enc.lower().replace("-", "") in ("utf8",):
+            return {"violated": None, "note": "the child interpreter still prefers UTF-8 (%s): the design cannot show the dependence here" % enc}
+        return {"violated": not ok, "input": {"title": c.title, "reader environment": "LC_ALL=C PYTHONUTF8=0 PYTHONCOERCECLOCALE=0", "preferred encoding of the reader": enc},
+                "observed": {"exit code": r.returncode, "title read back": title[:60], "stderr": r.stderr.decode("utf-8", "replace")[-200:]}}
+    except Exception as ex:
+        return {"violated": None, "note": "locale design failed: %r" % ex}
+    finally:
+        for f in os.listdir(tmp):
+            os.unlink(os.path.join(tmp, f))
+        os.rmdir(tmp)
 
 
 def native_first(ck):
@@ -586,6 +669,7 @@ def run(ck):
     month_logic(ck)
     band_and_unions(ck)
     toml_calls(ck)
+    cli_months(ck)
     ck.bounded_run("every dimensional field on the real model classes: bare numbers, canonical text, other physical kinds", lambda: field_design(ck),
                    design="15 fields x {bare number, text in the canonical unit} x 2-3 values; 2-6 quantities of another physical kind per field, including spectrally equivalent ones (wavelength / photon energy / wavenumber for a frequency, frequency for a length)")
     ck.bounded_run("TOML round trip, unit spellings, rejections, months on the real classes", lambda: bounded_native(ck),
